@@ -23,6 +23,38 @@ Ltac tie_auto := first [reflexivity | (cbv zeta; tie_split; tie_done)].
 (** the same for `gen_f_no_ub args = true` under range hypotheses *)
 Ltac tie_ub := unfold irange; cbv zeta; tie_split; lia.
 
+(** Fallback for the 8- and 16-bit instantiations only: exhaustive evaluation of EVERY value of the (finite) domain
+    [lo, lo + n - 1] named in the statement -- complete, and independent of the shape of the generated code. *)
+Fixpoint zall (fuel : nat) (f : Z -> bool) (i : Z) : bool :=
+  match fuel with O => true | S k => f i && zall k f (i + 1) end.
+Lemma zall_spec fuel : forall f i, zall fuel f i = true -> forall x, i <= x < i + Z.of_nat fuel -> f x = true.
+Proof.
+  induction fuel as [|k IH]; intros f i H x Hx; [lia|].
+  cbn [zall] in H. apply andb_true_iff in H. destruct H as [H0 H1].
+  destruct (Z.eq_dec x i) as [->|]; [exact H0|]. apply (IH f (i + 1) H1). lia.
+Qed.
+Lemma zall_range f lo n : 0 <= n -> zall (Z.to_nat n) f lo = true -> forall x, lo <= x < lo + n -> f x = true.
+Proof. intros Hn H x Hx. apply (zall_spec _ _ _ H). rewrite Z2Nat.id by lia. lia. Qed.
+Ltac tie_sweep g m lo n :=
+  match goal with |- g ?v = m ?v =>
+    apply Z.eqb_eq;
+    apply (zall_range (fun x => g x =? m x) lo n); [lia | vm_compute; reflexivity | lia]
+  end.
+
+(** Shape-independent fallback for shift/mask code: shifts become * and / by 2, `| 1` on an even value becomes + 1,
+    `& 1` becomes mod 2; what is left is linear arithmetic with div/mod by literals. *)
+Lemma lor1_even a : a mod 2 = 0 -> Z.lor a 1 = a + 1.
+Proof.
+  intros H. assert (E : a = (a / 2) * 2 ^ 1) by (change (2 ^ 1) with 2; divmod).
+  rewrite E at 1. rewrite (lor_mul_add (a / 2) 1 1) by lia. lia.
+Qed.
+Ltac tie_bits :=
+  cbv zeta; tie_split;
+  rewrite ?Z.shiftl_mul_pow2, ?Z.shiftr_div_pow2 in * by lia; change (2 ^ 1) with 2 in *;
+  repeat match goal with |- context [Z.lor ?a 1] => rewrite (lor1_even a) by divmod end;
+  rewrite ?land1_mod2 in *;
+  divmod.
+
 (** zig-zag helpers, for every width w >= 1 *)
 Lemma tie_shl1_mod w a : 1 <= w -> Z.shiftl a 1 mod 2 ^ w = 2 * (a mod 2 ^ (w - 1)).
 Proof.
@@ -45,27 +77,39 @@ Qed.
 (* BEGIN tie ConvertSignedIntToSymbol *)
 Lemma tie_ConvertSignedIntToSymbol_i8 v : -128 <= v <= 127 -> gen_ConvertSignedIntToSymbol_i8 v = zigzag_enc 8 v.
 Proof.
-  intros. unfold gen_ConvertSignedIntToSymbol_i8, zigzag_enc. change (2 ^ 8) with 256.
-  destruct (v >=? 0); [reflexivity|]. cbv zeta.
-  replace (((- (v + 1) + 128) mod 256 - 128) mod 256) with ((- (v + 1)) mod 256) by divmod.
-  destruct (tie_lor1 8 ((- (v + 1)) mod 256)) as [E R]; [lia|]. change (2 ^ 8) with 256 in *.
-  rewrite E. apply Z.mod_small. lia.
+  intros. first [ solve [
+    unfold gen_ConvertSignedIntToSymbol_i8, zigzag_enc; change (2 ^ 8) with 256;
+    destruct (v >=? 0); [reflexivity|]; cbv zeta;
+    replace (((- (v + 1) + 128) mod 256 - 128) mod 256) with ((- (v + 1)) mod 256) by divmod;
+    destruct (tie_lor1 8 ((- (v + 1)) mod 256)) as [E R]; [lia|]; change (2 ^ 8) with 256 in *;
+    rewrite E; apply Z.mod_small; lia ]
+  | tie_sweep gen_ConvertSignedIntToSymbol_i8 (zigzag_enc 8) (-128) 256 ].
 Qed.
 Print Assumptions tie_ConvertSignedIntToSymbol_i8.
 Lemma tie_ConvertSignedIntToSymbol_i16 v : -32768 <= v <= 32767 -> gen_ConvertSignedIntToSymbol_i16 v = zigzag_enc 16 v.
 Proof.
-  intros. unfold gen_ConvertSignedIntToSymbol_i16, zigzag_enc. change (2 ^ 16) with 65536.
-  destruct (v >=? 0); [reflexivity|]. cbv zeta.
-  replace (((- (v + 1) + 32768) mod 65536 - 32768) mod 65536) with ((- (v + 1)) mod 65536) by divmod.
-  destruct (tie_lor1 16 ((- (v + 1)) mod 65536)) as [E R]; [lia|]. change (2 ^ 16) with 65536 in *.
-  rewrite E. apply Z.mod_small. lia.
+  intros. first [ solve [
+    unfold gen_ConvertSignedIntToSymbol_i16, zigzag_enc; change (2 ^ 16) with 65536;
+    destruct (v >=? 0); [reflexivity|]; cbv zeta;
+    replace (((- (v + 1) + 32768) mod 65536 - 32768) mod 65536) with ((- (v + 1)) mod 65536) by divmod;
+    destruct (tie_lor1 16 ((- (v + 1)) mod 65536)) as [E R]; [lia|]; change (2 ^ 16) with 65536 in *;
+    rewrite E; apply Z.mod_small; lia ]
+  | tie_sweep gen_ConvertSignedIntToSymbol_i16 (zigzag_enc 16) (-32768) 65536 ].
 Qed.
 Print Assumptions tie_ConvertSignedIntToSymbol_i16.
-Lemma tie_ConvertSignedIntToSymbol_i32 v : gen_ConvertSignedIntToSymbol_i32 v = zigzag_enc 32 v.
-Proof. reflexivity. Qed.
+Lemma tie_ConvertSignedIntToSymbol_i32 v : -2147483648 <= v <= 2147483647 ->
+  gen_ConvertSignedIntToSymbol_i32 v = zigzag_enc 32 v.
+Proof.
+  intros. first [ reflexivity
+                | unfold gen_ConvertSignedIntToSymbol_i32, zigzag_enc; change (2 ^ 32) with 4294967296; tie_bits ].
+Qed.
 Print Assumptions tie_ConvertSignedIntToSymbol_i32.
-Lemma tie_ConvertSignedIntToSymbol_i64 v : gen_ConvertSignedIntToSymbol_i64 v = zigzag_enc 64 v.
-Proof. reflexivity. Qed.
+Lemma tie_ConvertSignedIntToSymbol_i64 v : -9223372036854775808 <= v <= 9223372036854775807 ->
+  gen_ConvertSignedIntToSymbol_i64 v = zigzag_enc 64 v.
+Proof.
+  intros. first [ reflexivity
+                | unfold gen_ConvertSignedIntToSymbol_i64, zigzag_enc; change (2 ^ 64) with 18446744073709551616; tie_bits ].
+Qed.
 Print Assumptions tie_ConvertSignedIntToSymbol_i64.
 (* END tie ConvertSignedIntToSymbol *)
 
@@ -80,45 +124,56 @@ Proof.
 Qed.
 Lemma tie_ConvertSymbolToSignedInt_u8 s : 0 <= s < 256 -> gen_ConvertSymbolToSignedInt_u8 s = zigzag_dec 8 s.
 Proof.
-  intros. unfold gen_ConvertSymbolToSignedInt_u8, zigzag_dec. cbv zeta. rewrite negb_involutive.
-  destruct (tie_zz_dec_aux 8 s) as [R ->]; [lia | change (2 ^ 8) with 256; lia |]. change (2 ^ (8 - 1)) with 128 in R.
-  set (h := Z.shiftr s 1) in *. clearbody h.
-  rewrite (Z.mod_small h) by lia.
-  destruct (Z.land s 1 =? 0).
-  - rewrite (Z.mod_small (h + 128)) by lia. lia.
-  - rewrite (Z.mod_small (h + 128)) by lia. replace (h + 128 - 128) with h by lia.
-    rewrite (Z.mod_small (- h - 1 + 128)) by lia. lia.
+  intros. first [ solve [
+    unfold gen_ConvertSymbolToSignedInt_u8, zigzag_dec; cbv zeta; rewrite negb_involutive;
+    destruct (tie_zz_dec_aux 8 s) as [R ->]; [lia | change (2 ^ 8) with 256; lia |]; change (2 ^ (8 - 1)) with 128 in R;
+    set (h := Z.shiftr s 1) in *; clearbody h;
+    rewrite (Z.mod_small h) by lia;
+    destruct (Z.land s 1 =? 0);
+    [ rewrite (Z.mod_small (h + 128)) by lia; lia
+    | rewrite (Z.mod_small (h + 128)) by lia; replace (h + 128 - 128) with h by lia;
+      rewrite (Z.mod_small (- h - 1 + 128)) by lia; lia ] ]
+  | tie_sweep gen_ConvertSymbolToSignedInt_u8 (zigzag_dec 8) 0 256 ].
 Qed.
 Print Assumptions tie_ConvertSymbolToSignedInt_u8.
 Lemma tie_ConvertSymbolToSignedInt_u16 s : 0 <= s < 65536 -> gen_ConvertSymbolToSignedInt_u16 s = zigzag_dec 16 s.
 Proof.
-  intros. unfold gen_ConvertSymbolToSignedInt_u16, zigzag_dec. cbv zeta. rewrite negb_involutive.
-  destruct (tie_zz_dec_aux 16 s) as [R ->]; [lia | change (2 ^ 16) with 65536; lia |]. change (2 ^ (16 - 1)) with 32768 in R.
-  set (h := Z.shiftr s 1) in *. clearbody h.
-  rewrite (Z.mod_small h) by lia.
-  destruct (Z.land s 1 =? 0).
-  - rewrite (Z.mod_small (h + 32768)) by lia. lia.
-  - rewrite (Z.mod_small (h + 32768)) by lia. replace (h + 32768 - 32768) with h by lia.
-    rewrite (Z.mod_small (- h - 1 + 32768)) by lia. lia.
+  intros. first [ solve [
+    unfold gen_ConvertSymbolToSignedInt_u16, zigzag_dec; cbv zeta; rewrite negb_involutive;
+    destruct (tie_zz_dec_aux 16 s) as [R ->]; [lia | change (2 ^ 16) with 65536; lia |]; change (2 ^ (16 - 1)) with 32768 in R;
+    set (h := Z.shiftr s 1) in *; clearbody h;
+    rewrite (Z.mod_small h) by lia;
+    destruct (Z.land s 1 =? 0);
+    [ rewrite (Z.mod_small (h + 32768)) by lia; lia
+    | rewrite (Z.mod_small (h + 32768)) by lia; replace (h + 32768 - 32768) with h by lia;
+      rewrite (Z.mod_small (- h - 1 + 32768)) by lia; lia ] ]
+  | tie_sweep gen_ConvertSymbolToSignedInt_u16 (zigzag_dec 16) 0 65536 ].
 Qed.
 Print Assumptions tie_ConvertSymbolToSignedInt_u16.
 Lemma tie_ConvertSymbolToSignedInt_u32 s : 0 <= s < 4294967296 -> gen_ConvertSymbolToSignedInt_u32 s = zigzag_dec 32 s.
 Proof.
-  intros. unfold gen_ConvertSymbolToSignedInt_u32, zigzag_dec. cbv zeta. rewrite negb_involutive.
-  destruct (tie_zz_dec_aux 32 s) as [R ->]; [lia | change (2 ^ 32) with 4294967296; lia |]. change (2 ^ (32 - 1)) with 2147483648 in R.
-  set (h := Z.shiftr s 1) in *. clearbody h.
-  rewrite (Z.mod_small (h + 2147483648)) by lia.
-  destruct (Z.land s 1 =? 0); lia.
+  intros. first [ solve [
+    unfold gen_ConvertSymbolToSignedInt_u32, zigzag_dec; cbv zeta; rewrite negb_involutive;
+    destruct (tie_zz_dec_aux 32 s) as [R ->]; [lia | change (2 ^ 32) with 4294967296; lia |];
+    change (2 ^ (32 - 1)) with 2147483648 in R;
+    set (h := Z.shiftr s 1) in *; clearbody h;
+    rewrite (Z.mod_small (h + 2147483648)) by lia;
+    destruct (Z.land s 1 =? 0); lia ]
+  | unfold gen_ConvertSymbolToSignedInt_u32, zigzag_dec, to_signed;
+    change (2 ^ (32 - 1)) with 2147483648; change (2 ^ 32) with 4294967296; tie_bits ].
 Qed.
 Print Assumptions tie_ConvertSymbolToSignedInt_u32.
 Lemma tie_ConvertSymbolToSignedInt_u64 s : 0 <= s < 18446744073709551616 -> gen_ConvertSymbolToSignedInt_u64 s = zigzag_dec 64 s.
 Proof.
-  intros. unfold gen_ConvertSymbolToSignedInt_u64, zigzag_dec. cbv zeta. rewrite negb_involutive.
-  destruct (tie_zz_dec_aux 64 s) as [R ->]; [lia | change (2 ^ 64) with 18446744073709551616; lia |].
-  change (2 ^ (64 - 1)) with 9223372036854775808 in R.
-  set (h := Z.shiftr s 1) in *. clearbody h.
-  rewrite (Z.mod_small (h + 9223372036854775808)) by lia.
-  destruct (Z.land s 1 =? 0); lia.
+  intros. first [ solve [
+    unfold gen_ConvertSymbolToSignedInt_u64, zigzag_dec; cbv zeta; rewrite negb_involutive;
+    destruct (tie_zz_dec_aux 64 s) as [R ->]; [lia | change (2 ^ 64) with 18446744073709551616; lia |];
+    change (2 ^ (64 - 1)) with 9223372036854775808 in R;
+    set (h := Z.shiftr s 1) in *; clearbody h;
+    rewrite (Z.mod_small (h + 9223372036854775808)) by lia;
+    destruct (Z.land s 1 =? 0); lia ]
+  | unfold gen_ConvertSymbolToSignedInt_u64, zigzag_dec, to_signed;
+    change (2 ^ (64 - 1)) with 9223372036854775808; change (2 ^ 64) with 18446744073709551616; tie_bits ].
 Qed.
 Print Assumptions tie_ConvertSymbolToSignedInt_u64.
 (* END tie ConvertSymbolToSignedInt *)
@@ -193,6 +248,37 @@ Qed.
 Print Assumptions tie_CanonicalizeOctahedralCoords_no_ub.
 (* END tie CanonicalizeOctahedralCoords_no_ub *)
 
+(* BEGIN tie SetQuantizationBits *)
+(** returns false = the model's None (the four integer fields keep their old values); true = Some state with exactly
+    the fields written.  The store to the float field dequantization_scale_ is outside the integer model
+    ("ignore_fields" of the whitelist entry). *)
+Lemma tie_SetQuantizationBits q qb0 m0 v0 c0 :
+  gen_SetQuantizationBits qb0 m0 v0 c0 q =
+  match set_quantization_bits q with
+  | Some o => (true, ob_q o, ob_mqv o, ob_maxv o, ob_center o)
+  | None => (false, qb0, m0, v0, c0)
+  end.
+Proof. unfold gen_SetQuantizationBits, set_quantization_bits, to_i32, u32. tie_auto. Qed.
+Print Assumptions tie_SetQuantizationBits.
+(* END tie SetQuantizationBits *)
+
+(* BEGIN tie SetQuantizationBits_no_ub *)
+(** for EVERY q: the shift count is in range and max_quantized_value_ - 1 does not overflow *)
+Lemma tie_SetQuantizationBits_no_ub q qb0 m0 v0 c0 : gen_SetQuantizationBits_no_ub qb0 m0 v0 c0 q = true.
+Proof.
+  unfold gen_SetQuantizationBits_no_ub, irange. cbv zeta.
+  destruct ((q <? 2) || (q >? 30)) eqn:E; [reflexivity|].
+  assert (Hq : 2 <= q <= 30) by lia.
+  rewrite Z.shiftl_mul_pow2 by lia.
+  assert (2 ^ 2 <= 2 ^ q <= 2 ^ 30) by (split; apply Z.pow_le_mono_r; lia).
+  change (2 ^ 2) with 4 in *. change (2 ^ 30) with 1073741824 in *.
+  set (p := 2 ^ q) in *. clearbody p.
+  rewrite (Z.mod_small (1 * p)) by lia. rewrite (Z.mod_small (1 * p - 1)) by lia.
+  rewrite (Z.mod_small (1 * p - 1 + 2147483648)) by lia. lia.
+Qed.
+Print Assumptions tie_SetQuantizationBits_no_ub.
+(* END tie SetQuantizationBits_no_ub *)
+
 (* BEGIN tie IsInBottomLeft *)
 Lemma tie_IsInBottomLeft x y : gen_IsInBottomLeft_i32 x y = is_in_bottom_left (x, y).
 Proof. unfold gen_IsInBottomLeft_i32, is_in_bottom_left. tie_auto. Qed.
@@ -246,6 +332,7 @@ Proof.
   unfold wrap_init. destruct ((mx - mn <? 0) || (mx - mn >=? 2147483647)); [discriminate|].
   intros E. injection E as <-. split; reflexivity.
 Qed.
+Print Assumptions tie_InitCorrectionBounds_fields.
 (* END tie InitCorrectionBounds *)
 
 (* BEGIN tie InitCorrectionBounds_no_ub *)
